@@ -281,10 +281,12 @@ def gen_module(
     if emit_and_infer_imports:
         imports: str = "{}{}".format(
             imports or "",
-            " ".join(
+            "\n".join(
                 map(
                     to_code,
-                    optimise_imports(chain(*map(infer_imports, functions_and_classes))),
+                    optimise_imports(
+                        chain(*filter(None, map(infer_imports, functions_and_classes)))
+                    ),
                 )
             ),
         )
